@@ -1,6 +1,7 @@
 //go:build verif
 
-// Contracts for package bucketteer (comment-only; read by /verif/vcgo, build tag verif).
+// Contracts for package deprecated/bucketteer (legacy sig-exists format, map-based tables; comment-only; read by
+// /verif/vcgo, build tag verif). Same template as /repo/bucketteer/contracts_verif.go, adapted to the legacy code.
 package bucketteer
 
 //@ func Hash
@@ -8,31 +9,27 @@ package bucketteer
 //@   pure
 //@   trusted
 
-//@ func prefixToUint16
-//@   mode bv
-//@   ensures result == uint16(prefix[0]) + uint16(prefix[1])*256
-
-//@ func uint16ToPrefix
-//@   mode bv
-//@   ensures result[0] == byte(num) && result[1] == byte(num >> 8)
-
 // ---- writer ----
+
+// isPfx(p, sig): p is the map key [2]byte{sig[0], sig[1]}. ([2]byte values are SMT arrays over all integers in vcgo; Go
+// values are zero outside 0..1, which the last conjunct pins down so that p is determined uniquely.)
+//@ spec func isPfx(p [2]byte, sig [64]byte) bool = p[0] == sig[0] && p[1] == sig[1] && (forall k int :: k < 0 || k > 1 ==> p[k] == 0)
 
 //@ func (*Writer) Put
 //@   mode int
 //@   requires b.prefixToHashes != nil
 //@   modifies b.prefixToHashes
-//@   ensures len(b.prefixToHashes[int(sig[0]) + int(sig[1])*256]) == old(len(b.prefixToHashes[int(sig[0]) + int(sig[1])*256])) + 1
-//@   ensures b.prefixToHashes[int(sig[0]) + int(sig[1])*256][old(len(b.prefixToHashes[int(sig[0]) + int(sig[1])*256]))] == Hash(sig)
-//@   ensures forall q int :: 0 <= q && q < 65536 && q != int(sig[0]) + int(sig[1])*256 ==> b.prefixToHashes[q] == old(b.prefixToHashes[q])
+//@   ensures forall p [2]byte :: isPfx(p, sig) ==> has(b.prefixToHashes, p) && len(b.prefixToHashes[p]) == old(len(b.prefixToHashes[p])) + 1 && b.prefixToHashes[p][old(len(b.prefixToHashes[p]))] == Hash(sig)
+//@   ensures forall q [2]byte :: !isPfx(q, sig) ==> has(b.prefixToHashes, q) == old(has(b.prefixToHashes, q)) && b.prefixToHashes[q] == old(b.prefixToHashes[q])
 
 //@ func (*Writer) Has
 //@   mode int
 //@   requires b.prefixToHashes != nil
-//@   ensures result <==> exists i int :: 0 <= i && i < len(b.prefixToHashes[int(sig[0]) + int(sig[1])*256]) && b.prefixToHashes[int(sig[0]) + int(sig[1])*256][i] == Hash(sig)
-//@   loop 0 invariant forall i int :: 0 <= i && i < rangeidx0 ==> b.prefixToHashes[int(sig[0]) + int(sig[1])*256][i] != Hash(sig)
+//@   ensures forall p [2]byte :: isPfx(p, sig) ==> (result <==> exists i int :: 0 <= i && i < len(b.prefixToHashes[p]) && b.prefixToHashes[p][i] == Hash(sig))
+//@   loop 0 invariant isPfx(prefix, sig) && hash == Hash(sig)
+//@   loop 0 invariant forall i int :: 0 <= i && i < rangeidx0 ==> b.prefixToHashes[prefix][i] != Hash(sig)
 
-// ---- reader ----
+// ---- reader: primitives ----
 
 // le64of(b0..b7): little-endian uint64 of eight bytes. Written as a (never taken) self-reference so that vcgo keeps it an
 // opaque function (unfolded only where `use unfold(...)` asks for it): callers compare hashes by congruence on the bytes.
@@ -181,20 +178,29 @@ package bucketteer
 //@   loop 0 invariant forall b int :: 0 <= b && b < len(entries) ==> exists c int :: 0 <= c && c < len(entries) && entries[c] == old(entries[b]) && (c >= i || exists a int :: 0 <= a && a < len(out) && out[a] == old(entries[b]))
 //@   loop 0 decreases len(entries) - i
 
-// ---- writer: header ----
-// Encoded size of a Meta (indexmeta wire format: count byte, then per pair: key length byte, key, value length byte, value).
-//@ spec func metaLen(m indexmeta.Meta, k int) int = ite(k <= 0, int(1), metaLen(m, k-1) + 2 + len(m.KeyVals[k-1].Key) + len(m.KeyVals[k-1].Value))
+// getSortedPrefixes: the keys of the map, sorted. The loop collects exactly the keys (proved up to the sort); sort.Slice is
+// given a bytes.Compare comparator, which vcgo does not model (call abstracted, heaps havoced), so the two membership
+// postconditions cannot be carried across the sort and "sorted" cannot be stated: engine limitation. len(result) <= 65536
+// holds because the keys are distinct [2]byte values (pigeonhole; not derivable by vcgo): used by seal to exclude overflow.
+//@ func getSortedPrefixes
+//@   mode int
+//@   ensures fresh(result) && len(result) <= 65536
+//@   ensures forall i int :: 0 <= i && i < len(result) ==> has(prefixToHashes, result[i])
+//@   ensures forall k [2]byte :: has(prefixToHashes, k) ==> exists i int :: 0 <= i && i < len(result) && result[i] == k
+//@   loop 0 invariant fresh(prefixes)
+//@   loop 0 invariant forall i int :: 0 <= i && i < len(prefixes) ==> has(prefixToHashes, prefixes[i])
+//@   loop 0 invariant forall k [2]byte :: visited0(k) ==> exists i int :: 0 <= i && i < len(prefixes) && prefixes[i] == k
 
-// createHeader: the body is a sequence of calls into the third-party borsh encoder (gagliardetto/binary) writing to a
-// bytes.Buffer, whose content vcgo does not model: TRUSTED. Stated assumption: the encoder writes fixed-width integers, so
-// the header length is 4 (size) + 8 (magic) + 8 (version) + meta + 8 (count) + 65536 * (2 + 8) and in particular does
-// not depend on headerSizeIn or on the offsets; an error yields no header. (The body passes the safety sweep untrusted.)
+// ---- writer: header ----
+// createHeader: body = calls into the third-party borsh encoder (gagliardetto/binary) writing to a bytes.Buffer whose
+// content vcgo does not model: TRUSTED. Stated: an error yields no header; a header has at least the five fixed-width
+// fields (4 + 8 + 8 + 8 + 8 bytes). NOT stated (engine limitation: `len` of a map is not available in contracts): the
+// header length depends only on meta and on the NUMBER of prefixes, hence the final header has the length of the draft.
 //@ func createHeader
 //@   mode int
 //@   trusted
 //@   ensures result1 != nil ==> len(result0) == 0
-//@   ensures result1 == nil ==> fresh(result0) && len(result0) == 655388 + metaLen(meta, len(meta.KeyVals))
-//@   ensures result1 == nil ==> 655389 <= len(result0) && len(result0) <= 785949
+//@   ensures result1 == nil ==> fresh(result0) && 36 <= len(result0)
 
 // overwriteFileContentAt: success only if WriteAt accepted all of data (os.File.WriteAt is external: no content model).
 //@ func overwriteFileContentAt
@@ -202,66 +208,42 @@ package bucketteer
 //@   requires file != nil
 //@   ensures result == nil ==> wrote == len(data)
 
-// seal: ghost written(out) counts the bytes accepted by the bufio.Writer. B = old(written(out)) + headerSize is the file
-// position where the bucket area starts (the reader's contentReader starts there). Loop 1 invariant: the bytes written so
-// far are exactly header + previousOffset, so the offset recorded for a prefix (previousOffset at the head of its
-// iteration) is the position, relative to B, where that bucket's record `uint32 count, count * uint64` starts, and
-// thisSize is the number of bytes written for it.
+// seal: as in /repo/bucketteer. Ghost written(out) counts the bytes accepted by the bufio.Writer; loop 1 invariant: the bytes
+// written so far are exactly header + previousOffset, so the offset recorded for a prefix is where its record starts
+// (relative to the end of the header) and thisSize is the number of bytes written for it.
+// Assumption (requires): at most 2^32-1 hashes per prefix (the count is stored as uint32).
 //@ func seal
 //@   mode int
 //@   requires out != nil && prefixToHashes != nil
-//@   requires forall q int :: 0 <= q && q < 65536 ==> len(prefixToHashes[q]) <= 4294967295
+//@   requires forall p [2]byte :: len(prefixToHashes[p]) <= 4294967295
 //@   modifies all
 //@   ensures result2 != nil ==> len(result0) == 0 && result1 == 0
 //@   ensures result2 == nil ==> int(result1) == written(out) - old(written(out))
-//@   ensures result2 == nil ==> len(result0) == headerSize && 655388 <= headerSize && headerSize <= 785949
-//@   ensures result2 == nil ==> 655389 <= len(result0) && len(result0) <= 785949 && int(result1) >= len(result0)
-//@   ensures result2 == nil ==> int(result1) == headerSize + int(previousOffset)
-//@   ensures result2 == nil ==> forall q int :: 0 <= q && q < 65536 ==> prefixToOffset[q] + 4 <= previousOffset
-//@   ensures result2 == nil ==> forall q, r int :: 0 <= q && q < r && r < 65536 ==> prefixToOffset[q] + 4 <= prefixToOffset[r]
-//@   ensures result2 == nil ==> prefixToOffset[0] == 0 && int(previousOffset) <= int(prefixToOffset[65535]) + 4 + 8*len(prefixToHashes[65535])
-//@   ensures result2 == nil ==> forall q int :: 0 <= q && q < 65535 ==> int(prefixToOffset[q+1]) <= int(prefixToOffset[q]) + 4 + 8*len(prefixToHashes[q])
-//@   loop 1 invariant headerSize == len(header) && 655388 <= headerSize && headerSize <= 785949
-//@   loop 1 invariant len(header) == 655388 + metaLen(meta, len(meta.KeyVals))
-//@   loop 1 invariant forall q int :: 0 <= q && q < 65536 ==> len(prefixToHashes[q]) <= 4294967295
-//@   loop 1 invariant previousOffset <= uint64(rangeidx1) * 34359738368
+//@   ensures result2 == nil ==> 36 <= headerSize && int(result1) == headerSize + int(previousOffset)
+//@   ensures result2 == nil ==> result1 >= 36 && len(result0) >= 36
+//@   ensures result2 == nil ==> forall q int :: 0 <= q && q < len(prefixes) ==> has(prefixToOffset, prefixes[q]) && prefixToOffset[prefixes[q]] + 4 <= previousOffset
+//@   loop 0 invariant prefixToOffset != nil
+//@   loop 0 invariant forall q int :: 0 <= q && q < rangeidx0 ==> has(prefixToOffset, prefixes[q])
+//@   loop 1 invariant prefixToOffset != nil && headerSize == len(header) && 36 <= headerSize && len(prefixes) <= 65536
+//@   loop 1 invariant forall p [2]byte :: len(prefixToHashes[p]) <= 4294967295
+//@   loop 1 invariant forall q int :: 0 <= q && q < len(prefixes) ==> has(prefixToOffset, prefixes[q])
+//@   loop 1 invariant 0 <= int(previousOffset) && int(previousOffset) <= rangeidx1 * 34359738368
 //@   loop 1 invariant headerSize + int(previousOffset) == written(out) - old(written(out))
 //@   loop 1 invariant int(totalWritten) == headerSize + int(previousOffset)
-//@   loop 1 invariant forall q int :: 0 <= q && q < rangeidx1 ==> prefixToOffset[q] + 4 <= previousOffset
-//@   loop 1 invariant forall q, r int :: 0 <= q && q < r && r < rangeidx1 ==> prefixToOffset[q] + 4 <= prefixToOffset[r]
-//@   loop 1 invariant rangeidx1 > 0 ==> prefixToOffset[0] == 0
-//@   loop 1 invariant rangeidx1 > 0 ==> int(previousOffset) <= int(prefixToOffset[rangeidx1-1]) + 4 + 8*len(prefixToHashes[rangeidx1-1])
-//@   loop 1 invariant forall q int :: 0 <= q && q+1 < rangeidx1 ==> int(prefixToOffset[q+1]) <= int(prefixToOffset[q]) + 4 + 8*len(prefixToHashes[q])
+//@   loop 1 invariant forall q int :: 0 <= q && q < rangeidx1 ==> prefixToOffset[prefixes[q]] + 4 <= previousOffset
 //@   loop 2 invariant written(out) - old(written(out)) == headerSize + int(previousOffset) + 4 + 8*rangeidx2
 
-// (*Writer).Seal: creates the file, writes draft header + buckets through seal, flushes, then overwrites the draft header
-// in place with the final one (same length: seal's postcondition, so the bucket area is not touched).
-// seal is `modifies all` (the elements of all 65536 bucket slices are sorted in place; a modifies clause cannot name such a
-// family), so after the call b.writer / b.destination are unknown to the caller: the two nil-receiver obligations on
-// b.writer.Flush / b.destination.Sync stay open (engine limitation, not a defect: seal never sees b).
+// (*Writer).Seal: seal is `modifies all` (it sorts the elements of every bucket slice in place; a modifies clause cannot name
+// such a family), so after the call b.destination is unknown to the caller: the precondition file != nil of
+// overwriteFileContentAt stays open (engine limitation, not a defect: seal never sees b).
 //@ func (*Writer) Seal
 //@   mode int
-//@   requires b.prefixToHashes != nil
-//@   requires forall q int :: 0 <= q && q < 65536 ==> len(b.prefixToHashes[q]) <= 4294967295
+//@   requires b.prefixToHashes != nil && b.writer != nil && b.destination != nil
+//@   requires forall p [2]byte :: len(b.prefixToHashes[p]) <= 4294967295
 //@   modifies all
-//@   ensures result1 == nil ==> result0 >= 655389
+//@   ensures result1 == nil ==> result0 >= 36
 
 // ---- reader: opening ----
-
-//@ func newUint16Layout
-//@   mode int
-//@   ensures forall q int :: 0 <= q && q < 65536 ==> result[q] == 18446744073709551615
-//@   loop 0 invariant 0 <= i && i <= 65536
-//@   loop 0 invariant forall q int :: 0 <= q && q < i ==> layout[q] == 18446744073709551615
-//@   loop 0 decreases 65536 - i
-
-//@ func newUint16LayoutPointer
-//@   mode int
-//@   ensures result != nil && fresh(result)
-//@   ensures forall q int :: 0 <= q && q < 65536 ==> result[q] == 18446744073709551615
-//@   loop 0 invariant 0 <= i && i <= 65536
-//@   loop 0 invariant forall q int :: 0 <= q && q < i ==> layout[q] == 18446744073709551615
-//@   loop 0 decreases 65536 - i
 
 // isReaderEmpty: "not empty" is answered only after one byte was actually read at offset 0.
 //@ func isReaderEmpty
@@ -270,15 +252,17 @@ package bucketteer
 //@   ensures result1 == nil && !result0 ==> reader != nil && fsize(reader) >= 1
 //@   ensures result0 ==> result1 == nil && reader != nil
 
-// readHeader: safety for arbitrary file content (header size taken from 4 untrusted bytes; numPrefixes untrusted: every
-// prefix read is a uint16, so the table index is always in range). The borsh decoder (gagliardetto/binary) is external:
-// the decoded values are arbitrary for vcgo, so "offset of prefix p is the value stored in the header" is not stated.
-// result2 = 4 + (little-endian uint32 at file offset 0) = where the bucket area starts.
+// readHeader (legacy): safety for arbitrary file content; the borsh decoder is external (decoded values arbitrary for vcgo).
+// result2 = 4 + (little-endian uint32 at file offset 0) = where the bucket area starts. Observation (not a C05 matter):
+// the meta map is built in an inner block and dropped; the function returns a nil meta on every path (`ensures result1 == nil`
+// is proved), so Reader.Meta()/GetMeta never see the stored metadata. Termination of the two count-driven loops is not
+// claimed (counts are untrusted uint64 values; each iteration consumes header bytes, which the decoder model does not expose).
 //@ func readHeader
 //@   mode int
 //@   requires reader != nil
-//@   ensures result3 != nil ==> result0 == nil && result1 == nil && result2 == 0
-//@   ensures result3 == nil ==> result0 != nil && result1 != nil && fresh(result0) && fresh(result1)
+//@   ensures result1 == nil
+//@   ensures result3 != nil ==> result0 == nil && result2 == 0
+//@   ensures result3 == nil ==> result0 != nil
 //@   ensures result3 == nil ==> 4 <= result2 && result2 <= 4294967299 && result2 <= fsize(reader)
 //@   ensures result3 == nil ==> forall j int :: 0 <= j && j < 4 ==> byte((result2 - 4) >> (8*uint(j))) == fbyte(reader, j)
 //@   noframe
@@ -288,14 +272,13 @@ package bucketteer
 //@ func NewReader
 //@   mode int
 //@   ensures result1 != nil ==> result0 == nil
-//@   ensures result1 == nil ==> reader != nil && result0 != nil && fresh(result0) && result0.prefixToOffset != nil && result0.contentReader != nil && result0.meta != nil
+//@   ensures result1 == nil ==> reader != nil && result0 != nil && fresh(result0) && result0.prefixToOffset != nil && result0.contentReader != nil
 //@   ensures result1 == nil ==> 4 <= headerTotalSize && headerTotalSize <= 4294967299 && int(headerTotalSize) <= fsize(reader)
 //@   ensures result1 == nil && fsize(reader) <= 9223372036854775807 ==> fsize(result0.contentReader) == fsize(reader) - int(headerTotalSize)
 //@   ensures result1 == nil ==> forall j int :: 0 <= j && j < 4 ==> byte((headerTotalSize - 4) >> (8*uint(j))) == fbyte(reader, j)
 //@   ensures result1 == nil ==> forall k int :: fbyte(result0.contentReader, k) == fbyte(reader, int(headerTotalSize) + k)
 //@   noframe
 
-// `pure` (requested by the C10 contracts of package main, which call Meta() in contracts): r.meta is assigned once, in NewReader.
 //@ func (*Reader) Meta
 //@   mode int
 //@   pure
@@ -303,28 +286,24 @@ package bucketteer
 
 // ---- reader: lookup ----
 // Layout of the bucket area (file behind r.contentReader): the record of prefix p starts at o = r.prefixToOffset[p]:
-// uint32 count, then count uint64 hashes in eytzinger order. offOf = o, cntAt = count, hashAt(t) = hash of node t+1.
-//@ spec func offOf(r *Reader, sig [64]byte) uint64 = r.prefixToOffset[int(sig[0]) + int(sig[1])*256]
+// uint32 count, then count uint64 hashes in eytzinger order. cntAt = count, hashAt(t) = hash of node t+1.
 //@ spec func cntAt(r *Reader, o int) int = int(fbyte(r.contentReader, o)) + int(fbyte(r.contentReader, o+1))*256 + int(fbyte(r.contentReader, o+2))*65536 + int(fbyte(r.contentReader, o+3))*16777216
 //@ spec func hashAt(r *Reader, o int, t int) uint64 = le64f(r.contentReader, o + 4 + 8*t)
 
-// (*Reader).Has. searchEytzinger is executed inline here (directive `inline` on its contract) so that the closure reading
+// (*Reader).Has (legacy). searchEytzinger is executed inline (directive `inline` on its contract) so that the closure reading
 // the hashes is executed with readUint64Le's contract; loop 0 is the search loop. Preconditions = well-formedness of the
-// file for the prefix of sig: offset representable as int64, stored hashes in eytzinger (search tree) order.
-// NO bound on the count is needed: for count >= 2^29 the uint32 product numHashes*8 wraps, the section reader is too
-// short, reads beyond it fail, and the outcome is an error, never a wrong answer (the contract verifies without the
-// `count < 2^29` assumption that DESIGN C05 listed).
+// file for the prefix of sig (when present in the table): offset representable as int64, stored hashes in search-tree order.
 //@ func (*Reader) Has
 //@   mode int
 //@   requires r.prefixToOffset != nil && r.contentReader != nil
-//@   requires offOf(r, sig) != 18446744073709551615 ==> offOf(r, sig) <= 4611686018427387904
-//@   requires forall j, k int :: offOf(r, sig) != 18446744073709551615 && 0 <= k && k < cntAt(r, int(offOf(r, sig))) && 0 <= j && j < cntAt(r, int(offOf(r, sig))) && anc(j+1, 2*(k+1)) ==> hashAt(r, int(offOf(r, sig)), j) < hashAt(r, int(offOf(r, sig)), k)
-//@   requires forall j, k int :: offOf(r, sig) != 18446744073709551615 && 0 <= k && k < cntAt(r, int(offOf(r, sig))) && 0 <= j && j < cntAt(r, int(offOf(r, sig))) && anc(j+1, 2*(k+1)+1) ==> hashAt(r, int(offOf(r, sig)), j) > hashAt(r, int(offOf(r, sig)), k)
+//@   requires forall p [2]byte :: isPfx(p, sig) && has(r.prefixToOffset, p) ==> r.prefixToOffset[p] <= 4611686018427387904
+//@   requires forall p [2]byte :: forall j, k int :: isPfx(p, sig) && has(r.prefixToOffset, p) && 0 <= k && k < cntAt(r, int(r.prefixToOffset[p])) && 0 <= j && j < cntAt(r, int(r.prefixToOffset[p])) && anc(j+1, 2*(k+1)) ==> hashAt(r, int(r.prefixToOffset[p]), j) < hashAt(r, int(r.prefixToOffset[p]), k)
+//@   requires forall p [2]byte :: forall j, k int :: isPfx(p, sig) && has(r.prefixToOffset, p) && 0 <= k && k < cntAt(r, int(r.prefixToOffset[p])) && 0 <= j && j < cntAt(r, int(r.prefixToOffset[p])) && anc(j+1, 2*(k+1)+1) ==> hashAt(r, int(r.prefixToOffset[p]), j) > hashAt(r, int(r.prefixToOffset[p]), k)
 //@   ensures result1 != nil ==> !result0 && result1 != ErrNotFound
-//@   ensures result1 == nil && result0 ==> offOf(r, sig) != 18446744073709551615 && exists t int :: 0 <= t && t < cntAt(r, int(offOf(r, sig))) && hashAt(r, int(offOf(r, sig)), t) == Hash(sig)
-//@   ensures result1 == nil && !result0 && offOf(r, sig) != 18446744073709551615 ==> forall t int :: 0 <= t && t < cntAt(r, int(offOf(r, sig))) ==> hashAt(r, int(offOf(r, sig)), t) != Hash(sig)
+//@   ensures forall p [2]byte :: isPfx(p, sig) && result1 == nil && result0 ==> has(r.prefixToOffset, p) && exists t int :: 0 <= t && t < cntAt(r, int(r.prefixToOffset[p])) && hashAt(r, int(r.prefixToOffset[p]), t) == Hash(sig)
+//@   ensures forall p [2]byte :: isPfx(p, sig) && result1 == nil && !result0 && has(r.prefixToOffset, p) ==> forall t int :: 0 <= t && t < cntAt(r, int(r.prefixToOffset[p])) ==> hashAt(r, int(r.prefixToOffset[p]), t) != Hash(sig)
 //@   use forall t int :: ancRoot(t)
-//@   loop 0 invariant 0 <= index && max == cntAt(r, int(offset)) && x == Hash(sig) && offset == offOf(r, sig) && bucketReader != nil
+//@   loop 0 invariant 0 <= index && isPfx(prefix, sig) && has(r.prefixToOffset, prefix) && offset == r.prefixToOffset[prefix] && max == cntAt(r, int(offset)) && x == Hash(sig) && bucketReader != nil
 //@   loop 0 invariant forall t int :: 0 <= t && t < max && hashAt(r, int(offset), t) == x ==> anc(t+1, index+1)
 //@   loop 0 use forall t int :: t > index+1 ==> ancSplit(t, index+1)
 //@   loop 0 use forall t int :: ancBelow(t, index+1)
